@@ -898,7 +898,19 @@ func (c *Conn) dispatch(fr *FrameHeader) bool {
 		return true
 	}
 
-	return errors.Is(err, FlowControlError)
+	if errors.Is(err, FlowControlError) {
+		return true
+	}
+
+	// What is left is a response turned away as malformed, which is a stream
+	// error (RFC 7540 8.1.2.6). The server has to be told: it may be part way
+	// through a body that nobody reads any more, and it keeps the stream, and
+	// its share of the concurrency limit, until it hears otherwise.
+	if fr.Type() != FrameResetStream {
+		c.cancelStream(fr.Stream(), ProtocolError)
+	}
+
+	return false
 }
 
 // endsStream reports whether fr is the last frame of its stream. END_STREAM
